@@ -334,19 +334,20 @@ static long live_bytes_for(int sid) { long c = 0; for (size_t i = 0; i < g_nblk;
 #define GUARD 32
 static unsigned char *alloc_app(dses_t *s, unsigned char **raw)
 {
-	/* exact-size block when align==0 (ASan red zone at byte len); otherwise a
-	 * block with manual guard bytes and the requested misalignment */
+	/* the buffer always ENDS where its heap block ends, so that ASan's red zone sits at byte len whatever the
+	 * alignment (a read or a value-preserving read-modify-write past the end leaves guard bytes intact); in front of a
+	 * misaligned buffer there are manual guard bytes (an application's packet header) */
 	if (s->align == 0) { *raw = malloc(s->len ? s->len : 1); return *raw; }
-	*raw = malloc(s->len + 2 * GUARD + 8);
-	memset(*raw, 0x5C, s->len + 2 * GUARD + 8);
-	return *raw + GUARD + (s->align & 7);
+	size_t front = GUARD + (s->align & 7);
+	*raw = malloc(front + (s->len ? s->len : 1));
+	memset(*raw, 0x5C, front);
+	return *raw + front;
 }
 static int guards_ok(dses_t *s, int i)
 {
 	if (s->align == 0) return 1;
 	unsigned char *raw = s->raw[i], *b = s->cw[i];
 	for (unsigned char *p = raw; p < b; p++) if (*p != 0x5C) return 0;
-	for (unsigned char *p = b + s->len; p < raw + s->len + 2 * GUARD + 8; p++) if (*p != 0x5C) return 0;
 	return 1;
 }
 static int app_ok(dses_t *s)
